@@ -91,3 +91,62 @@ def c09(ctx):
 def c19(ctx):
     return seq_container(ctx, "list", "ListTrace", [("ListMC", "ListMC.cfg")],
                          depth=dict(quick=4, thorough=5), shards=12)
+
+
+def star_helpers(ctx, driver, trace_module, laws=None, shards=12):
+    """Pure helpers (DESIGN 7/C11-C15): the Go driver enumerates inputs, calls the real helper
+    (panics recovered) and records star-shaped traces; TLC decides res \\in Allowed(fn, args) with
+    Allowed the TLA+ transcription of the statement.  `laws`: a module whose ASSUMEs state the
+    algebraic laws TLC checks on the definitions alone."""
+    ctx.setup()
+    opn, _ = vlib.known_findings(ctx.prop)
+    if laws:
+        r = ctx.tlc(laws, cfg=laws + ".cfg", workers=4, xmx="4g")
+        ctx.require_ok(r, "laws " + laws)
+        ctx.states += max(r["distinct"], 1)
+        ctx.transitions += max(r["generated"], 1)
+        ctx.mc_states += max(r["distinct"], 1)
+        ctx.notes.setdefault("model_checks", []).append(dict(module=laws, note="algebraic laws of the definitions (ASSUMEs) hold", wall_s=round(r["wall"], 1)))
+    vlib.probe_known_findings(ctx, trace_module, opn)
+    out = os.path.join(ctx.scratch, "t", driver)
+    summ = ctx.drive(driver, ["-out", out, "-shards", shards])
+    if summ["nodes"] < 10:
+        raise Infra("driver %s recorded only %d calls" % (driver, summ["nodes"]))
+    ctx.notes["driver"] = dict(name=driver, calls=summ["nodes"], panics_recorded=summ["panics"])
+    nviol = vlib.check_recordings(ctx, driver, trace_module, summ["files"], opn, variant_of=lambda f: "star")
+    # samples: a few recorded calls verbatim
+    try:
+        with open(summ["files"][0]) as f:
+            lines = f.readlines()
+        for i in (1, len(lines) // 2, len(lines) - 1):
+            n = vlib.json.loads(lines[i])
+            ctx.samples.append(dict(op=n["op"], res=n["res"]))
+    except Exception:
+        pass
+    vlib.write_evidence(ctx, exhaustive=False)
+    return nviol
+
+
+@handler("C11")
+def c11(ctx):
+    return star_helpers(ctx, "sliceset", "SliceSetTrace")
+
+
+@handler("C12")
+def c12(ctx):
+    return star_helpers(ctx, "reshape", "ReshapeTrace")
+
+
+@handler("C13")
+def c13(ctx):
+    return star_helpers(ctx, "search", "SearchTrace")
+
+
+@handler("C14")
+def c14(ctx):
+    return star_helpers(ctx, "mapops", "MapOpsTrace")
+
+
+@handler("C15")
+def c15(ctx):
+    return star_helpers(ctx, "strops", "StrOpsTrace")
